@@ -290,6 +290,42 @@ Theorem C19_closed :
 Proof. exact ok_closed. Qed.
 Print Assumptions C19_closed.
 
+(* "so the result can be copied": with the caller's own descriptors present in the target, the new
+   manifest and every successor of it answer Exists afterwards (source closed one level down from the
+   new root; deeper levels are the caller's graph).  CopyGraph itself stays the harness oracle. *)
+Theorem C19_closed_when_supplied_present :
+  forall (marshal : manifest -> str) (H : str -> str), H empty_json = empty_json_digest ->
+  forall f tc fa s at_ o now s' d m,
+    Forall (fun x => stored (t_key tc) (s_store s) x = true) (supplied o) ->
+    pack marshal H f tc fa s at_ o now = (s', Ok d m) ->
+    stored (t_key tc) (s_store s') d = true /\
+    Forall (fun x => stored (t_key tc) (s_store s') x = true) (successors m).
+Proof. exact ok_closed_when_supplied_present. Qed.
+Print Assumptions C19_closed_when_supplied_present.
+
+(* Histories: any sequence of Pack / PackManifest calls on one target (any mix of packers, inputs,
+   failures, one fault somewhere).  Content-addressed stores stay so, and whatever an earlier call
+   returned is still there after all later calls. *)
+Theorem C19_history_store_stays_content_addressed :
+  forall (marshal : manifest -> str) (H : str -> str), H empty_json = empty_json_digest ->
+  forall tc fa cs s s' rs,
+    run_calls marshal H tc fa s cs = (s', rs) -> wf_store H (s_store s) -> wf_store H (s_store s').
+Proof. exact history_preserves_wf. Qed.
+Print Assumptions C19_history_store_stays_content_addressed.
+
+Theorem C19_history_results_stay :
+  forall (marshal : manifest -> str) (H : str -> str), H empty_json = empty_json_digest ->
+  forall tc fa cs s s' rs d m,
+    wf_store H (s_store s) ->
+    run_calls marshal H tc fa s cs = (s', rs) ->
+    In (Ok d m) rs ->
+    stored (t_key tc) (s_store s') d = true /\
+    d_dg d = H (marshal m) /\
+    exists e, In e (s_store s') /\ same_key (t_key tc) d e = true /\ H (e_bytes e) = H (marshal m) /\
+              ((forall x y, H x = H y -> x = y) -> e_bytes e = marshal m).
+Proof. exact history_results_stay. Qed.
+Print Assumptions C19_history_results_stay.
+
 (* Whatever Pack pushes describes its own content, so content-addressed stores stay so. *)
 Theorem C19_store_stays_content_addressed :
   forall (marshal : manifest -> str) (H : str -> str), H empty_json = empty_json_digest ->
